@@ -17,6 +17,7 @@ package main
 import (
 	"encoding/hex"
 	"fmt"
+	"reflect"
 	"sort"
 	"strconv"
 	"strings"
@@ -1070,7 +1071,7 @@ func runCacheUnit(c *Ctx) {
 			c.Disagree(wireProps[:1], Render(line), impl, m, nil)
 		}
 	}
-	lenOf := func(ch *mint.Cache) int { return len(cacheKeys(ch)) }
+	lenOf := func(ch *mint.Cache) int { return reflect.ValueOf(ch).Elem().FieldByName("items").Len() }
 	rounds := 6
 	if c.Thorough {
 		rounds = 40
@@ -1082,10 +1083,20 @@ func runCacheUnit(c *Ctx) {
 		n := 60
 		if round == 0 {
 			// the limit boundary: Set is allowed while len <= 10000, so the 10001st distinct key is stored and the 10002nd is not
+			var lines []Sx
+			var impls []string
 			for i := 0; i < 10003; i++ {
 				k := "k" + strconv.Itoa(i)
 				ch.Set(k, []byte("v"), time.Hour)
-				ask(L(A("wire.cache.set"), S(k), S("v"), A(strconv.FormatInt(int64(time.Hour), 10))), Render(L(A("ok"), I(lenOf(ch)))))
+				lines = append(lines, L(A("wire.cache.set"), S(k), S("v"), A(strconv.FormatInt(int64(time.Hour), 10))))
+				impls = append(impls, Render(L(A("ok"), I(lenOf(ch)))))
+			}
+			for i, m := range c.Drv.Batch(lines) {
+				c.Case("cache-unit|(wire.cache.set|fill", true)
+				if m != impls[i] {
+					c.Disagree(wireProps[:1], Render(lines[i]), impls[i], m, nil)
+					break
+				}
 			}
 			c.Hist("cache-unit", fmt.Sprintf("entries after 10003 distinct Set calls: %d", lenOf(ch)))
 			// overwriting an existing key at the limit is refused too
@@ -1126,11 +1137,17 @@ func runCacheUnit(c *Ctx) {
 }
 
 func runWire(c *Ctx) {
+	t0 := time.Now()
 	runCauseTable(c)
 	if len(c.Res.Disagreements) > 0 {
 		return
 	}
+	t1 := time.Now()
 	runCacheUnit(c)
+	t2 := time.Now()
+	defer func() {
+		c.Res.Notes = append(c.Res.Notes, fmt.Sprintf("wall: cause table %.1fs, cache object %.1fs, histories %.1fs", t1.Sub(t0).Seconds(), t2.Sub(t1).Seconds(), time.Since(t2).Seconds()))
+	}()
 	histories, minOps, maxOps := 8, 60, 100
 	if c.Thorough {
 		histories, minOps, maxOps = 80, 100, 220
